@@ -507,7 +507,7 @@ func main() {
 	rn.cfg = cfg
 	res.Note("db/memory variant probed on the real code: %+v", cfg)
 	if rn.drv != nil {
-		if a, err := rn.drv.Ask(cfg.Line()); err != nil || a != "ok" {
+		if a, err := askDeadline(rn.drv, cfg.Line()); err != nil || a != "ok" {
 			driverDied(fmt.Errorf("Lean driver rejected %q: %v %q", cfg.Line(), err, a))
 		}
 	}
@@ -649,7 +649,7 @@ func upperBoundPhase(f lib.Flags, r *lib.RNG, drv *lib.Driver, res *lib.Result) 
 		if ub != nil {
 			implS = hx(ub)
 		}
-		modelS, err := drv.Ask("ub " + hx(p))
+		modelS, err := askDeadline(drv, "ub "+hx(p))
 		if err != nil {
 			return fmt.Errorf("lean driver died in the UpperBound phase: %w", err)
 		}
